@@ -394,6 +394,10 @@ void VfRun::oracle_read(Handle &H, const OpRes &r, bool is_int, const Rec &op) {
 }
 
 void VfRun::oracle_open(Handle &H, long ret) {
+  // hole mode's premise is a handle that sees the stream as it is apart from the one page: a seekable open measures the links from the pages it
+  // finds, and a damaged page near the end of a short link can make it measure something else; then only the safety oracle applies
+  if (sr.hole && ret == 0 && H.seekable && (ov_streams(H.vf) != sr.nlinks || ov_pcm_total(H.vf, -1) != sr.total)) { sr.hole = false; g_stats.inc("probe.hole_open_measured_other_totals"); }
+  if (sr.hole && ret != 0) sr.hole = false;
   if (inexact() || H.io_dirty) {
     check(ret == 0 || documented_code(ret), {"C03", "C12"}, "open", "undocumented-return", fmt("ret=%ld", ret));
     if (ret != 0) {
